@@ -517,7 +517,7 @@ func init() {
 				case r < 10:
 					// somebody deletes the ObjectDeployment (while the Package is paused it must not come back)
 					kd := Key{pkoGroup, "ObjectDeployment", NS, "p1"}
-					if m := w.Store.Snapshot(KPK("p1")); m != nil && w.Store.Snapshot(kd) != nil && rng.Intn(3) == 0 {
+					if m := w.Store.Snapshot(KPK("p1")); m != nil && w.Store.Snapshot(kd) != nil && rng.Intn(3) == 0 && a.profile != "env" {
 						if paused, _ := nestedMap(m, "spec")["paused"].(bool); paused {
 							w.EnvDelete(kd, false)
 						}
